@@ -4,7 +4,8 @@
 import json, os, re, sys, glob
 V = os.path.dirname(os.path.dirname(os.path.abspath(__file__)))
 KNOWN = {"mir:simplified_json_from_root/one-bucket-per-name", "mir:rulegen/generated-rule-holds-on-its-source",
-         "mir:rulegen/distinct-types-distinct-rule-names"}      # recorded known finding, present on the unchanged tree
+         "mir:rulegen/distinct-types-distinct-rule-names",
+         "mir:eval_parameterized_rule_call/literal-argument-bound-as-a-literal"}      # recorded known finding, present on the unchanged tree
 RETIRED = {"C11-c", "C02-i"}        # neutralised by a later fix: kept for the record
 NOTES = json.load(open(os.path.join(V, "seeded", "notes.json"))) if os.path.exists(os.path.join(V, "seeded", "notes.json")) else {}
 rows = []
